@@ -1,4 +1,14 @@
+mod apgen;
+mod c01;
+mod c03;
+mod c05;
 mod c17;
+mod causes;
+mod inst;
+mod model;
+mod relcheck;
+mod relrun;
+mod sqlite;
 mod engine;
 mod iso;
 mod report;
@@ -58,6 +68,9 @@ fn main() {
         i += 1;
     }
     let code = match id.as_str() {
+        "C01" => c01::run(tier),
+        "C03" => c03::run(tier),
+        "C05" => c05::run(tier),
         "C17" => c17::run(tier),
         _ => {
             eprintln!("unknown property {id}");
